@@ -22,6 +22,7 @@ SUITE_MODULES = {
     "frame": "FrameC",
     "sheader": "FrameC",
     "typestate": "StreamTSC",
+    "wire": "WireC", "settings": "WireC", "dgram": "WireC", "capsule": "WireC", "ids": "WireC", "status": "WireC",
 }
 
 SUITE_FRANGE = {
@@ -29,6 +30,7 @@ SUITE_FRANGE = {
     "frame": (200, 249),
     "sheader": (250, 299),
     "typestate": (300, 399),
+    "wire": (400, 499), "settings": (401, 402), "dgram": (403, 404), "capsule": (405, 406), "ids": (407, 407), "status": (408, 409),
 }
 
 
